@@ -228,7 +228,7 @@ func (g *Gen) lookupVar(name string, blk *ssa.BasicBlock, idx int, st *State) (V
 		if l.Comment != name {
 			continue
 		}
-		if _, isStruct := l.Type().Underlying().(*types.Pointer).Elem().Underlying().(*types.Struct); isStruct {
+		if _, isStruct := l.Type().Underlying().(*types.Pointer).Elem().Underlying().(*types.Struct); isStruct && !g.isCellAlloc(l) {
 			continue
 		}
 		if _, done := g.vals[l]; !done {
@@ -594,7 +594,7 @@ func (g *Gen) loopModified(li *loopInfo) (map[string][]ssa.Value, bool) {
 				break
 			}
 			if al, ok := root.(*ssa.Alloc); ok {
-				if _, isStruct := al.Type().Underlying().(*types.Pointer).Elem().Underlying().(*types.Struct); !isStruct {
+				if _, isStruct := al.Type().Underlying().(*types.Pointer).Elem().Underlying().(*types.Struct); !isStruct || g.isCellAlloc(al) {
 					add(g.cellName(al), nil)
 					return
 				}
@@ -621,7 +621,7 @@ func (g *Gen) loopModified(li *loopInfo) (map[string][]ssa.Value, bool) {
 			}
 		case *ssa.Alloc:
 			et := x.Type().Underlying().(*types.Pointer).Elem()
-			if _, isStruct := et.Underlying().(*types.Struct); isStruct {
+			if _, isStruct := et.Underlying().(*types.Struct); isStruct && !g.isCellAlloc(x) {
 				var hs []string
 				g.leafHeaps(et, &hs)
 				for _, h := range hs {
@@ -659,7 +659,9 @@ func (g *Gen) loopModified(li *loopInfo) (map[string][]ssa.Value, bool) {
 			case *ssa.Alloc:
 				add("$alloc", nil)
 				et := x.Type().Underlying().(*types.Pointer).Elem()
-				if _, isStruct := et.Underlying().(*types.Struct); isStruct {
+				if g.isCellAlloc(x) {
+					add(g.cellName(x), nil)
+				} else if _, isStruct := et.Underlying().(*types.Struct); isStruct {
 					var hs []string
 					g.leafHeaps(et, &hs)
 					for _, h := range hs {
@@ -1028,7 +1030,9 @@ func (g *Gen) doReturn(x *ssa.Return) {
 		g.oblige("post", label, s, x.Pos(), en.Text)
 	}
 	g.frameObligations(x.Pos())
-	g.oblige("cover", "return-reachable", "true", x.Pos(), "").Cover = true
+	if g.E.coverReturns {
+		g.oblige("cover", "return-reachable", "true", x.Pos(), "").Cover = true
+	}
 }
 
 // frameObligations: every heap variable the function changed must be covered by `modifies`.
